@@ -27,6 +27,7 @@ def plan(tier, seed):
         for v2 in (False, True):
             jobs.append(dict(kind='layout', nl=nl, prior_v2=v2, ncmd=2 if tier == 'quick' else 3))
     jobs.append(dict(kind='errors', via='source-stub'))
+    jobs.append(dict(kind='cli'))
     return jobs
 
 
@@ -132,7 +133,7 @@ def render(ctx, cfg):
         expected.append(('command', 'R%d' % c, len(lines) + 1))
         cur.append('R%d = Node(' % c)
         style = ctx.choice('style%d' % c, 3)      # 0: one line, 1: one argument per line, 2: list spread over lines
-        args = [('D', 'X') if c == 0 else ('D', 'R%d' % (c - 1)), ('L', None)]
+        args = [('D', 'X') if c == 0 else ('D', 'R%d' % (c - 1)), ('L', None), ('NL', '[]')]
         for ai, (an, av) in enumerate(args):
             if style >= 1:
                 if ai == 0 and ctx.choice('tc%d' % c, 2):
@@ -143,8 +144,17 @@ def render(ctx, cfg):
                 cur.append('    ')
             expected.append(('argument', '%s@R%d' % (an, c), len(lines) + 1))
             if av is not None:
-                cur.append('%s = %s' % (an, av))
+                if style == 2 and an == 'NL' and ctx.choice('vl%d' % c, 2):
+                    cur.append('%s =' % an)         # the value starts on the next line
+                    newline()
+                    cur.append('        ')
+                    expected.append(('value', '%s@R%d' % (an, c), len(lines) + 1))
+                    cur.append(av)
+                else:
+                    expected.append(('value', '%s@R%d' % (an, c), len(lines) + 1))
+                    cur.append('%s = %s' % (an, av))
             else:
+                expected.append(('value', '%s@R%d' % (an, c), len(lines) + 1))
                 cur.append('%s = [' % an)
                 for ei in range(2):
                     if style == 2:
@@ -156,7 +166,7 @@ def render(ctx, cfg):
                     newline()
                     cur.append('    ')
                 cur.append(']')
-            if ai == 0:
+            if ai < len(args) - 1:
                 cur.append(', ')
         if style >= 1:
             newline()
@@ -172,6 +182,7 @@ def walk(tree):
         out.append(('command', cmd.result_name, cmd.lineno))
         for a in cmd.arguments:
             out.append(('argument', '%s@%s' % (a.name, cmd.result_name), a.lineno))
+            out.append(('value', '%s@%s' % (a.name, cmd.result_name), a.value.lineno))
             if isinstance(a.value.value, list):
                 for i, e in enumerate(a.value.value):
                     out.append(('element', '%s[%d]@%s' % (a.name, i, cmd.result_name), e.lineno))
@@ -215,11 +226,20 @@ def real_layout(rec):
     parser = pp.Parser()
     # reach the recorded pre-state through real parses: a first text with stale-1 line breaks (and EEMS 2 syntax if recorded)
     first = ('READ(InFileName = a, InFieldName = b)' if rec['prior_v2'] else 'Q = Node(D = X)') + '\n' * (rec['stale'] - 1)
-    parser.parse(first)
-    tree = parser.parse(rec['text'])
-    got = walk(tree)
-    bad = [(g, e) for g, e in zip(got, rec['expected']) if g[2] != e[2]]
-    return bad, tree.version
+    worst = ([], 3)
+    for history in ([first], [first + ' = = ='], [first, first + ' ( ('], [first + ' (']):
+        parser = pp.Parser()
+        for text in history:
+            try:
+                parser.parse(text)
+            except SyntaxError:
+                pass
+        tree = parser.parse(rec['text'])
+        got = walk(tree)
+        bad = [(g, e) for g, e in zip(got, rec['expected']) if g[2] != e[2]]
+        if bad or tree.version != 3:
+            return bad, tree.version
+    return worst
 
 
 # ------------------------------------------------------------------ (3) errors carry the line of the offending node
@@ -306,7 +326,75 @@ def errors_harness(ctx, cfg):
     return {'outcome': type(err).__name__ if err else 'no-error', 'obligations': obs, 'groups': groups, 'replay': {'kind': 'errors', 'fault': fault, 'where': where}, 'validated': True}
 
 
+# ------------------------------------------------------------------ (4) the line the command-line tool marks
+def cli_harness(ctx, cfg):
+    """a model file with solver-chosen leading blank lines, line endings and fault position runs through the real
+    CLI entry point; the line marked with --> must be the physical line of the offending command / argument"""
+    import io
+    import os
+    cli = sys.modules.get('mpilot.cli.mpilot')
+    if cli is None:
+        import mpilot.cli.mpilot as cli
+    lead = ctx.choice('leading_blank_lines', 3)
+    lead_kind = ctx.choice('leading_kind', 2)         # completely empty lines or lines holding blanks
+    nl = ['\n', '\r\n'][ctx.choice('nl', 2)]
+    fault = ['missing-result', 'unknown-command', 'undeclared-parameter', 'bad-list-element'][ctx.choice('fault', 4)]
+    gap = ctx.choice('gap', 2)
+    lines = [('' if lead_kind == 0 else '   ') for _ in range(lead)]
+    lines += ['# model', 'X = Node()']
+    lines += [''] * gap
+    lines.append('Y = Node(')
+    lines.append('    D = X,')
+    if fault == 'missing-result':
+        lines.append('    D2 = Nope')
+        want = len(lines)
+    elif fault == 'undeclared-parameter':
+        lines.append('    Bogus = 1')
+        want = len(lines)
+    elif fault == 'bad-list-element':
+        lines.append('    L = [X,')
+        want_alt = len(lines)
+        lines.append('         Nope]')
+        want = len(lines)
+    else:
+        lines.append('    D2 = X')
+        want = None
+    lines.append(')')
+    if fault == 'unknown-command':
+        lines.append('Z = NoSuchCommand(D = X)')
+        want = len(lines)
+    lines.append('# end')
+    path = os.path.join(P.SCRATCH, 'c11-cli-%d.mpt' % os.getpid())
+    with open(path, 'w', newline='') as f:
+        f.write(nl.join(lines) + nl)
+    err, status = io.StringIO(), None
+    old_err = sys.stderr
+    sys.stderr = err
+    try:
+        try:
+            cli.main.callback('eems-csv', path, ('mpvnodes',))
+            status = 0
+        except SystemExit as e:
+            status = e.code
+        except Exception as e:      # noqa: B902
+            status = 'escaped:' + type(e).__name__
+    finally:
+        sys.stderr = old_err
+    text = err.getvalue()
+    marked = [l_[4:] for l_ in text.split('\n') if l_.startswith('--> ')]
+    accept = {lines[want - 1]}
+    if fault == 'bad-list-element':
+        accept.add(lines[want_alt - 1])     # the argument line or the element line both locate the fault
+    obs = [('the tool reports the fault (status %r)' % (status,), z3.BoolVal(isinstance(status, int) and status != 0)),
+           ('exactly one line is marked and it is the offending line %d (marked: %r)' % (want, marked), z3.BoolVal(len(marked) == 1 and marked[0] in accept))]
+    groups = {obs[0][0]: 'cli-status', obs[1][0]: 'cli-marker ' + fault}
+    rec = {'kind': 'cli', 'lines': lines, 'nl': nl, 'want': want, 'marked': marked}
+    return {'outcome': fault, 'obligations': obs, 'groups': groups, 'replay': rec, 'validated': True}
+
+
 def harness(ctx, cfg):
+    if cfg['kind'] == 'cli':
+        return cli_harness(ctx, cfg)
     return {'newline': newline_harness, 'newline-token': newline_token_harness, 'layout': layout_harness, 'errors': errors_harness}[cfg['kind']](ctx, cfg)
 
 
